@@ -22,7 +22,9 @@ for sid, meta, det in rows:
         res, obs, cl = "not run", "", ""
     else:
         cl = "yes" if det.get("claimed") else "no"
-        if det.get("caught"):
+        if meta.get("neutralised"):
+            res = "FALSE ALARM" if det.get("caught") else "quiet (expected: neutralised change)"
+        elif det.get("caught"):
             res = "**caught**"; caught += 1
         else:
             res = "missed"; missed += 1
@@ -31,7 +33,7 @@ for sid, meta, det in rows:
     if len(what) > 260:
         what = what[:257] + "..."
     out.append(f"| {sid} | {cl} | {res} | {obs} | {what} |")
-out += ["", f"Totals: {caught} caught, {missed} missed, of {len(rows)} confirmed changes.", "",
+out += ["", f"Totals: {caught} caught, {missed} missed, of {len(rows) - sum(1 for _, m, _ in rows if m.get('neutralised'))} confirmed property-breaking changes (plus the neutralised ones, which must stay quiet).", "",
         "Not kept: C18-3 (the change made Stop return before the runner goroutine left its first timer wait; after the",
         "repair of Runner.Start, 21b8a41, Stop waits for that goroutine, so the change no longer violates its demonstration).",
         "Rebased onto the repaired tree (same semantic change, original kept as patch.orig.diff): C08-1, C08-3, C14-1."]
